@@ -270,6 +270,67 @@ Fixpoint entries_from (rows : list (list bvalue)) (idxs : list nat) (i : Z) : li
   | r :: rs => (index_key r idxs, i) :: entries_from rs idxs (i + 1)
   end.
 
+(** ** the uniqueness check of [IndexManager::create_index] (UNIQUE indexes only): keys are compared
+    after [normalize_for_comparison] (every numeric variant becomes an f64) with [SqlValue]'s [Eq];
+    keys containing NULL are skipped.  Integers beyond 2^53 (inexact as f64), INTERVAL keys and keys
+    mixing integer and float variants are not pinned down by this model ([PUnknown]). *)
+Inductive nkey : Type := NInt (z : Z) | NF64 (b : Z) | NF32 (b : Z) | NOther (v : sqlvalue) | NUnk.
+
+Definition nkey_of (b : bvalue) : nkey :=
+  match b with
+  | BInterval _ => NUnk
+  | BV v =>
+      match v with
+      | VInteger z | VSmallint z | VBigint z | VUnsigned z =>
+          if Z.abs z <=? 2 ^ 53 then NInt z else NUnk
+      | VDouble x | VNumeric x => NF64 x
+      | VFloat x | VReal x => NF32 x
+      | VInterval _ _ _ => NUnk
+      | other => NOther other
+      end
+  end.
+
+Definition nkey_eq (a b : nkey) : option bool :=
+  match a, b with
+  | NUnk, _ | _, NUnk => None
+  | NInt p, NInt q => Some (p =? q)
+  | NF64 p, NF64 q => Some (f_eqb 64 p q)
+  | NF32 p, NF32 q => Some (f_eqb 32 p q)
+  | NOther x, NOther y => Some (eqb x y)
+  | NOther _, _ | _, NOther _ => Some false
+  | _, _ => None
+  end.
+
+(** are two keys equal?  [Some false] as soon as one component definitely differs *)
+Fixpoint key_eq (a b : list nkey) : option bool :=
+  match a, b with
+  | [], [] => Some true
+  | x :: a', y :: b' =>
+      match nkey_eq x y with
+      | Some false => Some false
+      | Some true => key_eq a' b'
+      | None => match key_eq a' b' with Some false => Some false | _ => None end
+      end
+  | _, _ => Some false
+  end.
+
+(** [POk]: no duplicate NULL-free key; [PErr]: a definite duplicate; [PUnknown]: undecided *)
+Fixpoint unique_check (seen : list (list nkey)) (keys : list (list bvalue)) : presult unit :=
+  match keys with
+  | [] => POk tt
+  | k :: r =>
+      if existsb is_null k then unique_check seen r
+      else
+        let nk := map nkey_of k in
+        let cmp := map (key_eq nk) seen in
+        if existsb (fun c => match c with Some true => true | _ => false end) cmp then PErr
+        else if existsb (fun c => match c with None => true | _ => false end) cmp then PUnknown
+        else unique_check (nk :: seen) r
+  end.
+
+Definition index_unique_ok (unique : bool) (rows : list (list bvalue)) (idxs : list nat) : presult unit :=
+  if unique then unique_check [] (map (fun r => index_key r idxs) rows) else POk tt.
+
 (** [Database::create_index] *)
 Definition create_index (d : db) (name tname : bytes) (unique : bool) (cols : list (bytes * Z))
   : outcome db :=
@@ -284,9 +345,14 @@ Definition create_index (d : db) (name tname : bytes) (unique : bool) (cols : li
       | Some t =>
           match columns_idx (t_cols t) cols with
           | POk idxs =>
-              Ok (mkDb (d_schemas d) (d_roles d) (d_tables d)
-                    (d_indexes d ++ [mkIndex key tname unique cols (entries_from (t_rows t) idxs 0)])
-                    (d_triggers d)) []
+              match index_unique_ok unique (t_rows t) idxs with
+              | POk _ =>
+                  Ok (mkDb (d_schemas d) (d_roles d) (d_tables d)
+                        (d_indexes d ++ [mkIndex key tname unique cols (entries_from (t_rows t) idxs 0)])
+                        (d_triggers d)) []
+              | PErr => Err (ECatalog 8)
+              | _ => Unmodelled
+              end
           | PErr => Err (ECatalog 5)
           | _ => Unmodelled
           end
@@ -429,7 +495,12 @@ Definition rebuild_index (d : db) (i : index) : outcome index :=
       | None => Err (ECatalog 3)
       | Some t =>
           match columns_idx (t_cols t) (i_cols i) with
-          | POk idxs => Ok (mkIndex (i_name i) (i_table i) (i_unique i) (i_cols i) (entries_from (t_rows t) idxs 0)) []
+          | POk idxs =>
+              match index_unique_ok (i_unique i) (t_rows t) idxs with
+              | POk _ => Ok (mkIndex (i_name i) (i_table i) (i_unique i) (i_cols i) (entries_from (t_rows t) idxs 0)) []
+              | PErr => Err (ECatalog 8)
+              | _ => Unmodelled
+              end
           | PErr => Err (ECatalog 5)
           | _ => Unmodelled
           end
